@@ -6,6 +6,8 @@ CONSTANTS
   MaxSegs = 1
   MaxParts = 1
   SPPs = {}
+  Layouts = {"chrono"}
+  CrossLayouts = FALSE
 INVARIANT Verdicts
 POSTCONDITION Accepted
 CHECK_DEADLOCK FALSE
